@@ -14,7 +14,7 @@
                                        last line first (32b069b; `sim_update_g`, `torn_then_update`)
      retention / rename              : every prefix answers as a run map between BEFORE and AFTER (P1)
    F7a / F7b / F7c are repaired; their former witnesses are positive Examples in ProofsC07Ex.v. *)
-From Coq Require Import List String Ascii Bool Arith ZArith Lia Permutation.
+From Coq Require Import List String Ascii Bool Arith ZArith Lia Permutation Sorted.
 Import ListNotations.
 From BD.Hist Require Import Model SModel Spec ProofsLib ProofsStore ProofsRefine ProofsCache.
 Open Scope string_scope.
@@ -583,6 +583,124 @@ Proof.
     symmetry. apply sload_upto_unlink; auto.
 Qed.
 
+(* ---- FindByRequestID next to a shadowed file: the lookup scans the matches in REVERSE path order, so a file k whose every hit is also
+   a hit of a file with a larger path (the compacted copy next to its original) is never the file found ---------------------------------- *)
+Lemma isort_sorted {A} (key : A -> string) l : StronglySorted (asc key) (isort (klt key) l).
+Proof.
+  unfold isort.
+  assert (G : forall l acc, StronglySorted (asc key) acc -> StronglySorted (asc key) (fold_left (fun acc x => ins_by (klt key) x acc) l acc)).
+  { induction l0 as [|x l0 IH]; simpl; auto. intros acc S. apply IH, ins_by_sorted; auto. }
+  apply G. constructor.
+Qed.
+Lemma sorted_earlier {A} (key : A -> string) l1 x l2 y : StronglySorted (asc key) (l1 ++ x :: l2) -> In y l1 -> String.ltb (key x) (key y) = false.
+Proof.
+  induction l1 as [|a l1 IH]; simpl; intros S I; [tauto|]. inversion S as [|? ? S' F]; subst. destruct I as [I|I]; auto.
+  subst a. rewrite Forall_forall in F. apply F. apply in_or_app. right. simpl. auto.
+Qed.
+Lemma hd_filter_skip {A} (P N : A -> bool) R :
+  (forall l1 ex l2, R = l1 ++ ex :: l2 -> P ex = true -> N ex = false -> exists e, In e l1 /\ P e = true) ->
+  hd_error (filter P R) = hd_error (filter N (filter P R)).
+Proof.
+  induction R as [|a R IH]; simpl; auto. intros Hx. destruct (P a) eqn:Pa.
+  - simpl. destruct (N a) eqn:Na; [reflexivity|]. exfalso. destruct (Hx [] a R eq_refl Pa Na) as [e [[] _]].
+  - apply IH. intros l1 ex l2 E Pe Ne. destruct (Hx (a :: l1) ex l2) as [e [Ie Pe']]; auto. { rewrite E. reflexivity. }
+    destruct Ie as [Ie|Ie]; [subst e; congruence|]. eauto.
+Qed.
+Lemma filter_rev' {A} (P : A -> bool) l : filter P (rev l) = rev (filter P l).
+Proof. induction l as [|a l IH]; simpl; auto. rewrite filter_app, IH. simpl. destruct (P a); simpl; auto. rewrite app_nil_r. reflexivity. Qed.
+Lemma pick_first_hd l : pick_first l = match hd_error l with None => SFNone | Some e => match parse (snd e) with Some pl => SFFound (fst e) pl | None => SFNone end end.
+Proof. destruct l; reflexivity. Qed.
+
+Definition shadowed (S : sfs) (k : skey) : Prop :=
+  exists ey, In ey (sfiles S) /\ k_dag (fst ey) = k_dag k /\ k_tmp (fst ey) = false /\ String.ltb (kpath k) (kpath (fst ey)) = true
+    /\ (forall ex, In ex (sfiles S) -> fst ex = k -> forall rq, reqP rq ex = true -> reqP rq ey = true).
+Lemma find_unlink_shadow S k d req : shadowed S k ->
+  sq_find kname kpath S d req = sq_find kname kpath (run_sprim S (SUnlink k)) d req.
+Proof.
+  intros [ey [Iy [Dy [Ty [Ly Py]]]]]. unfold sq_find. rewrite sglob_unlink, !sfind_in_eq. destruct (String.eqb req ""); auto.
+  set (l := sglob kname S d PAll). set (KP := fun e : sent => kpath (fst e)).
+  change (fun x y : sent => String.ltb (kpath (fst x)) (kpath (fst y))) with (klt KP).
+  rewrite <- (isort_filter KP (nk k) l), <- filter_rev', (filter_comm (reqP req) (nk k)).
+  rewrite !pick_first_hd. rewrite <- (hd_filter_skip (reqP req) (nk k) (rev (isort (klt KP) l))); auto.
+  intros l1 ex l2 E Pe Ne. unfold nk in Ne. apply negb_false_iff in Ne. apply skey_eqb_eq in Ne.
+  assert (Il : In ex l).
+  { eapply Permutation_in; [apply isort_perm|]. apply in_rev. rewrite E. apply in_or_app. right. simpl. auto. }
+  unfold l in Il. apply sglob_iff in Il. destruct Il as [Dd [If [Ed Pk]]].
+  assert (Iyl : In ey l).
+  { unfold l. apply sglob_iff. repeat split; auto. { rewrite Dy, Ne. exact Ed. } unfold in_patk. rewrite Ty. reflexivity. }
+  assert (Pey : reqP req ey = true) by (apply (Py ex If (eq_sym Ne)); auto).
+  exists ey. split; auto.
+  assert (Iyr : In ey (rev (isort (klt KP) l))). { rewrite <- in_rev. eapply Permutation_in; [apply Permutation_sym, isort_perm|]. auto. }
+  rewrite E in Iyr. apply in_app_or in Iyr. destruct Iyr as [Iyr|[Iyr|Iyr]]; auto.
+  - exfalso. subst ey. rewrite <- Ne in Ly. rewrite sltb_irrefl in Ly. discriminate.
+  - exfalso. assert (SS : StronglySorted (asc KP) (rev l2 ++ ex :: rev l1)).
+    { pose proof (isort_sorted KP l) as SS. rewrite <- (rev_involutive (isort (klt KP) l)), E in SS. rewrite rev_app_distr in SS. simpl in SS.
+      rewrite <- app_assoc in SS. exact SS. }
+    pose proof (sorted_earlier KP (rev l2) ex (rev l1) ey SS (proj1 (in_rev _ _) Iyr)) as X. unfold KP in X. rewrite Ne in Ly. congruence.
+Qed.
+(* a store in which the plain file k is shadowed by its compacted twin answers every query as the store without k *)
+Lemma published_answers S k X : k_c k = false -> k_tmp k = false -> In (twin k) (keys S) -> shadowed S k ->
+  answers_as (run_sprim S (SUnlink k)) X -> answers_as S X.
+Proof.
+  intros C T Tw Sh A d. destruct (A d) as [A1 [A2 A3]]. destruct (published_view S k C T Tw [] d) as [V1 V2].
+  split; [|split].
+  - intros req. rewrite (find_unlink_shadow S k d req Sh). apply A1.
+  - intros day. rewrite V1. apply A2.
+  - intros n. rewrite V2. apply A3.
+Qed.
+
+(* ---- the steps of an update commute with the removal of a file they do not touch --------------------------------------------------------- *)
+Definition avoidp (k : skey) (p : sprim) : Prop :=
+  match p with SMkdir _ => True | SCreate k' _ | SAppend k' _ _ => k' <> k | _ => False end.
+Lemma shas_unlink S k k' : k' <> k -> shas (run_sprim S (SUnlink k)) k' = shas S k'.
+Proof. intros N. unfold shas. rewrite !sget_lget. cbn [run_sprim sfiles]. rewrite lget_filter_ne. apply skey_eqb_neq in N. rewrite N. reflexivity. Qed.
+Lemma run_unlink_comm1 S k p : avoidp k p -> run_sprim (run_sprim S (SUnlink k)) p = run_sprim (run_sprim S p) (SUnlink k).
+Proof.
+  destruct p; simpl avoidp; intros Av; try contradiction.
+  - cbn [run_sprim]. unfold shas_dir. cbn [sdirs]. destruct (existsb (String.eqb d) (sdirs S)); reflexivity.
+  - pose proof (shas_unlink S k k0 Av) as HS. cbn [run_sprim] in *. rewrite HS. destruct (shas S k0); [reflexivity|].
+    cbn [sdirs sfiles]. f_equal. rewrite filter_app. simpl. apply skey_eqb_neq in Av. rewrite (skey_eqb_sym k k0), Av. reflexivity.
+  - cbn [run_sprim sdirs sfiles]. f_equal. rewrite filter_map_comm. f_equal. apply filter_ext. intros e.
+    destruct (skey_eqb k0 (fst e)) eqn:E; auto. apply skey_eqb_eq in E. simpl. rewrite E. reflexivity.
+Qed.
+Lemma run_unlink_comm ps : forall S k, Forall (avoidp k) ps -> run_sprims (run_sprim S (SUnlink k)) ps = run_sprim (run_sprims S ps) (SUnlink k).
+Proof.
+  induction ps as [|p ps IH]; intros S k F; [reflexivity|]. inversion F; subst. cbn [run_sprims fold_left].
+  rewrite run_unlink_comm1 by auto. apply (IH (run_sprim S p) k); auto.
+Qed.
+Lemma same_view_unlink_tmp S kt : k_tmp kt = true -> same_view (run_sprim S (SUnlink kt)) S.
+Proof.
+  intros T. split; [reflexivity|]. cbn [run_sprim sfiles]. rewrite filter_comm. symmetry.
+  transitivity (filter (fun _ : sent => true) (filter plainb (sfiles S))); [|apply filter_true]. apply filter_ext_in. intros e Ie.
+  apply filter_In in Ie. destruct Ie as [_ Pe]. apply negb_true_iff. apply skey_eqb_neq. intro X. unfold plainb in Pe. rewrite <- X, T in Pe. discriminate.
+Qed.
+Lemma sfind_in_found l req kf p : sfind_in kpath l req = SFFound kf p -> exists e, In e l /\ fst e = kf /\ reqP req e = true /\ parse (snd e) = Some p.
+Proof.
+  rewrite sfind_in_eq. destruct (String.eqb req ""); [discriminate|].
+  destruct (filter (reqP req) _) as [|e r] eqn:F; [discriminate|]. simpl. destruct (parse (snd e)) eqn:Pe; [|discriminate]. intros X. inversion X; subst.
+  assert (I : In e (e :: r)) by (simpl; auto). rewrite <- F in I. apply filter_In in I. destruct I as [I Pq].
+  apply in_rev in I. eapply Permutation_in in I; [|apply isort_perm]. exists e. auto.
+Qed.
+(* an update by a new process on a store S, seen from the store without a file k that the lookup cannot find (shadowed or temporary):
+   the same file is found and updated, and removing k afterwards gives the updated store without k *)
+Lemma update_unlink_comm S k d req tag size now :
+  (forall d0 rq, sq_find kname kpath S d0 rq = sq_find kname kpath (run_sprim S (SUnlink k)) d0 rq) -> ~ In k (keys (run_sprim S (SUnlink k))) ->
+  sst (sapply kname kpath (dead (run_sprim S (SUnlink k))) (OUpdate d req tag size now))
+  = run_sprim (sst (sapply kname kpath (dead S) (OUpdate d req tag size now))) (SUnlink k).
+Proof.
+  intros FQ Nk. unfold sapply. cbn [sprims sst dead]. rewrite <- (FQ d req).
+  destruct (sq_find kname kpath S d req) as [|kf p] eqn:Q; [reflexivity|]. cbn [sst].
+  assert (Nkf : kf <> k).
+  { intro X. subst kf. rewrite (FQ d req) in Q. unfold sq_find in Q. apply sfind_key in Q. apply in_map_iff in Q. destruct Q as [e [E I]].
+    apply sglob_iff in I. destruct I as [_ [I _]]. apply Nk. unfold keys. apply in_map_iff. exists e. auto. }
+  assert (SO : sopen (run_sprim S (SUnlink k)) kf now = sopen S kf now).
+  { unfold sopen. rewrite !sget_lget. cbn [run_sprim sfiles]. rewrite lget_filter_ne. apply skey_eqb_neq in Nkf. rewrite Nkf. reflexivity. }
+  rewrite SO. apply run_unlink_comm. apply Forall_app. split.
+  - unfold sopen. apply Forall_app. split. { repeat constructor; simpl; auto. }
+    destruct (sget S kf) as [f|]; [destruct (ftail f)|]; repeat constructor; simpl; auto.
+  - apply Forall_forall. intros x Hx. apply in_map_iff in Hx. destruct Hx as [c [E _]]. subst x. simpl. auto.
+Qed.
+
 Lemma close_find_same H now d req : sp_find (sp_apply H (OClose now)) d req = sp_find H d req.
 Proof.
   unfold sp_find. destruct (String.eqb req ""); auto. simpl. destruct (h_cur H) as [id|]; auto. simpl.
@@ -675,6 +793,168 @@ Proof.
       * right. rewrite <- PS. exact POST.
 Qed.
 
+
+(* ---- an update by a new process after a kill inside Close ---------------------------------------------------------------------------
+   the crash states of Close, classified *)
+Lemma close_states h H L seen now s' :
+  R2 h H L -> incl (keys (sst h)) seen -> op_okb h seen (OClose now) = true ->
+  In s' (scrash_states kname kpath h (OClose now)) ->
+  s' = sst h
+  \/ (exists kt fx, k_tmp kt = true /\ ~ In kt (keys (sst h)) /\ s' = {| sdirs := sdirs (sst h); sfiles := sfiles (sst h) ++ [(kt, fx)] |})
+  \/ (exists w e0 a0 pl fc, swr h = Some w /\ In (e0, a0) L /\ fst e0 = sw_key w /\ k_c (sw_key w) = false /\ parse (snd e0) = Some pl /\ parse fc = Some pl
+        /\ ~ In (twin (sw_key w)) (keys (sst h))
+        /\ s' = {| sdirs := sdirs (sst h); sfiles := sfiles (sst h) ++ [(twin (sw_key w), fc)] |}
+        /\ sst (sapply kname kpath h (OClose now)) = run_sprim s' (SUnlink (sw_key w)))
+  \/ s' = sst (sapply kname kpath h (OClose now)).
+Proof.
+  intros R IS P IN.
+  unfold scrash_states in IN. simpl sprims in IN.
+  pose proof (r_wr _ _ _ _ R) as W. unfold wr_ok in W. simpl in P.
+  destruct (swr h) as [w|] eqn:EW.
+  2:{ simpl in IN. destruct IN as [IN|[]]. auto. }
+  destruct (h_cur H) as [id|] eqn:EC; [|contradiction].
+  destruct W as [W1 [W2 [e0 [a0 [I0 [E1 [E2 E3]]]]]]].
+  pose proof (L_sget h H L R e0 a0 I0) as G0. rewrite E1 in G0. rewrite G0 in IN.
+  destruct (parse (snd e0)) as [pl|] eqn:Pp.
+  2:{ simpl in IN. destruct IN as [IN|[]]. auto. }
+  set (k := sw_key w) in *. set (kc := twin k) in *. set (kt := tmpk kc) in *.
+  apply andb_prop in P. destruct P as [P _]. apply negb_true_iff in P. apply memk_false in P.
+  assert (Nkc : ~ In kc (keys (sst h))) by (intro X; apply P, IS, X).
+  assert (Nkt : ~ In kt (keys (sst h))) by (apply tmpk_absent, (r_plain _ _ _ _ R)).
+  assert (Dk : shas_dir (sst h) (k_dag kc) = true).
+  { change (k_dag kc) with (k_dag k). rewrite <- E1. apply (r_dirs _ _ _ _ R). apply (L_in_file h H L R (e0, a0)); auto. }
+  assert (TMP : forall fx, exists kt0 fx0, k_tmp kt0 = true /\ ~ In kt0 (keys (sst h))
+            /\ {| sdirs := sdirs (sst h); sfiles := sfiles (sst h) ++ [(kt, fx)] |} = {| sdirs := sdirs (sst h); sfiles := sfiles (sst h) ++ [(kt0, fx0)] |}).
+  { intros fx. exists kt, fx. auto. }
+  change (SUnlink kt :: SMkdir (k_dag k) :: SCreate kt now :: map (fun c : chunk => SAppend kt c now) (chunks_of pl) ++ [SRename kt kc; SUnlink k])
+    with ([SUnlink kt; SMkdir (k_dag kc); SCreate kt now] ++ (map (fun c : chunk => SAppend kt c now) (chunks_of pl) ++ [SRename kt kc; SUnlink k])) in IN.
+  apply scrash_app_in in IN. destruct IN as [IN|IN].
+  - assert (CL : scrash_from (sst h) [SUnlink kt; SMkdir (k_dag kc); SCreate kt now]
+                 = [sst h; run_sprim (sst h) (SUnlink kt); run_sprim (run_sprim (sst h) (SUnlink kt)) (SMkdir (k_dag kc));
+                    run_sprim (run_sprim (run_sprim (sst h) (SUnlink kt)) (SMkdir (k_dag kc))) (SCreate kt now)])
+      by reflexivity.
+    rewrite CL, (unlink_absent _ _ Nkt), (mkdir_noop _ _ Dk), (create_fresh _ kt now Nkt) in IN.
+    destruct IN as [X|[X|[X|[X|[]]]]]; subst s'; auto; right; left; apply TMP.
+  - assert (RS : run_sprims (sst h) [SUnlink kt; SMkdir (k_dag kc); SCreate kt now]
+                 = {| sdirs := sdirs (sst h); sfiles := sfiles (sst h) ++ [(kt, empty_file now)] |}).
+    { unfold run_sprims. cbn [fold_left]. rewrite (unlink_absent _ _ Nkt), (mkdir_noop _ _ Dk), (create_fresh _ kt now Nkt). reflexivity. }
+    rewrite RS in IN. set (sc := {| sdirs := sdirs (sst h); sfiles := sfiles (sst h) ++ [(kt, empty_file now)] |}) in *.
+    assert (UK : forall g, upd_key kt g (sfiles sc) = sfiles (sst h) ++ [(kt, g (empty_file now))]).
+    { intros g. unfold sc. cbn [sfiles]. rewrite upd_key_app, (upd_key_absent kt g (sfiles (sst h))) by exact Nkt. rewrite upd_key_single. reflexivity. }
+    apply scrash_app_in in IN. destruct IN as [IN|IN].
+    + apply crash_appends in IN. destruct IN as [g [Es AP]]. subst s'. rewrite UK. cbn [sdirs sc]. right. left. apply TMP.
+    + rewrite run_appends in IN. rewrite UK in IN. rewrite appends_status in IN by reflexivity. cbn [sdirs sc items empty_file app] in IN.
+      set (fc := {| items := [Rec pl]; ftail := TNone; mtime := now |}) in *.
+      set (stmp := {| sdirs := sdirs (sst h); sfiles := sfiles (sst h) ++ [(kt, fc)] |}) in *.
+      set (sfull := {| sdirs := sdirs (sst h); sfiles := sfiles (sst h) ++ [(kc, fc)] |}).
+      assert (RN : run_sprim stmp (SRename kt kc) = sfull).
+      { unfold stmp, sfull. apply rename_last; auto. apply tmpk_neq. reflexivity. }
+      assert (CL : scrash_from stmp [SRename kt kc; SUnlink k] = [stmp; run_sprim stmp (SRename kt kc); run_sprim (run_sprim stmp (SRename kt kc)) (SUnlink k)])
+        by reflexivity.
+      rewrite CL, RN in IN.
+      assert (PS : sst (sapply kname kpath h (OClose now)) = run_sprim sfull (SUnlink k)).
+      { unfold sapply. cbn [sprims sst]. rewrite EW. cbn [sst]. fold k. rewrite G0, Pp. fold kc. fold kt.
+        match goal with |- context [run_sprims (sst h) ?ps] =>
+          change (run_sprims (sst h) ps) with
+            (run_sprims (sst h) ([SUnlink (tmpk (twin k)); SMkdir (k_dag (twin k)); SCreate (tmpk (twin k)) now]
+                ++ map (fun c => SAppend (tmpk (twin k)) c now) (chunks_of pl) ++ [SRename (tmpk (twin k)) (twin k); SUnlink k])) end.
+        rewrite (close_run (sst h) k pl now Nkc Nkt Dk). reflexivity. }
+      destruct IN as [X|[X|[X|[]]]]; subst s'.
+      * right. left. apply TMP.
+      * right. right. left. exists w, e0, a0, pl, fc. repeat split; auto.
+      * right. right. right. auto.
+Qed.
+
+Lemma upd_key_in_other kf g (l : list sent) ex k : In ex (upd_key kf g l) -> fst ex = k -> kf <> k -> In ex l.
+Proof.
+  unfold upd_key. intros I E N. apply in_map_iff in I. destruct I as [e [Ee Ie]].
+  destruct (skey_eqb kf (fst e)) eqn:Q; subst ex; auto. simpl in E. congruence.
+Qed.
+
+Theorem close_then_update h H L seen now s' d req tag size now2 :
+  R2 h H L -> hist_okb H = true -> incl (keys (sst h)) seen -> op_okb h seen (OClose now) = true ->
+  hist_okb (sp_apply H (OClose now)) = true ->
+  (forall w, swr h = Some w -> String.ltb (kpath (sw_key w)) (kpath (twin (sw_key w))) = true) ->
+  In s' (scrash_states kname kpath h (OClose now)) ->
+  let u := OUpdate d req tag size now2 in
+  let s2 := sst (sapply kname kpath (dead s') u) in
+  answers_as s2 (sp_apply H u) \/ answers_as s2 (sp_apply (sp_apply H (OClose now)) u).
+Proof.
+  intros R O IS P O' LT IN u s2.
+  assert (OU : forall X, hist_okb X = true -> hist_okb (sp_apply X u) = true) by (intros X OX; unfold u; rewrite hist_okb_update; auto).
+  assert (RPOST : related (sst (sapply kname kpath h (OClose now))) (sp_apply H (OClose now))).
+  { destruct (step_sim kname kpath h H L seen (OClose now) R O IS P) as [L' R']. apply (related_pre _ _ L'); auto. }
+  destruct (close_states h H L seen now s' R IS P IN) as [E|[[kt [fx [Tk [Nk E]]]]|[[w [e0 [a0 [pl [fc [EW [I0 [E1 [W2 [Pp [Pf [Nkc [E PS]]]]]]]]]]]]]|E]]].
+  - left. subst s'. apply related_answers; auto. apply related_update; auto. apply (related_pre h H L); auto.
+  - (* the temporary copy is there: invisible to the lookup and to the listings *)
+    left.
+    assert (UL : run_sprim s' (SUnlink kt) = sst h).
+    { subst s'. cbn [run_sprim sdirs sfiles]. rewrite filter_app. simpl. rewrite skey_eqb_refl. simpl. rewrite app_nil_r.
+      destruct (sst h) as [ds fl]. cbn [sdirs sfiles] in *. f_equal.
+      transitivity (filter (fun _ : sent => true) fl); [|apply filter_true]. apply filter_ext_in. intros e Ie.
+      apply negb_true_iff. apply skey_eqb_neq. intro X. apply Nk. rewrite X. unfold keys. simpl. apply in_map. auto. }
+    assert (FQ : forall d0 rq, sq_find kname kpath s' d0 rq = sq_find kname kpath (run_sprim s' (SUnlink kt)) d0 rq).
+    { intros d0 rq. unfold sq_find. rewrite (sglob_view (run_sprim s' (SUnlink kt)) s' d0 PAll); auto. apply same_view_unlink_tmp; auto. }
+    pose proof (update_unlink_comm s' kt d req tag size now2 FQ) as CM. rewrite UL in CM. specialize (CM Nk). fold u in CM. fold s2 in CM.
+    apply (view_answers (run_sprim s2 (SUnlink kt))). { apply same_view_unlink_tmp; auto. }
+    rewrite <- CM. apply related_answers; auto. apply related_update; auto. apply (related_pre h H L); auto.
+  - (* the compacted copy is published next to the original *)
+    right. set (k := sw_key w) in *. set (kc := twin k) in *.
+    assert (Ie0 : In e0 (sfiles (sst h))) by (apply (L_in_file h H L R (e0, a0)); auto).
+    assert (Tk : k_tmp k = false). { rewrite <- E1. apply (r_plain _ _ _ _ R); auto. }
+    assert (Nkk : k <> kc). { intro X. assert (Y : k_c k = k_c kc) by congruence. unfold kc in Y. simpl in Y. congruence. }
+    assert (UQ : forall ex, In ex (sfiles (sst h)) -> fst ex = k -> ex = e0).
+    { intros ex Ix Ex. apply (NoDup_map_inj fst (sfiles (sst h))); auto. apply (r_keys _ _ _ _ R). congruence. }
+    assert (INK : forall ex, In ex (sfiles s') -> fst ex = k -> ex = e0).
+    { intros ex Ix Ex. subst s'. cbn [sfiles] in Ix. apply in_app_or in Ix. destruct Ix as [Ix|[Ix|[]]]; auto. subst ex. simpl in Ex. congruence. }
+    assert (RQ0 : forall rq fy, parse fy = Some pl -> reqP rq e0 = true -> reqP rq (kc, fy) = true).
+    { intros rq fy Py. unfold reqP. simpl. rewrite Pp, Py. auto. }
+    assert (SH : shadowed s' k).
+    { exists (kc, fc). subst s'. cbn [sfiles]. split. { apply in_or_app. right. simpl. auto. } split; [reflexivity|]. split; [reflexivity|].
+      split. { apply (LT w EW). } intros ex Ix Ex rq Rq. rewrite (INK ex Ix Ex) in Rq. apply RQ0; auto. }
+    assert (FQ : forall d0 rq, sq_find kname kpath s' d0 rq = sq_find kname kpath (run_sprim s' (SUnlink k)) d0 rq)
+      by (intros; apply find_unlink_shadow; auto).
+    assert (NkP : ~ In k (keys (run_sprim s' (SUnlink k)))).
+    { unfold keys. cbn [run_sprim sfiles]. intro X. apply in_map_iff in X. destruct X as [e [Ee Ie]]. apply filter_In in Ie. destruct Ie as [_ Ne].
+      rewrite Ee, skey_eqb_refl in Ne. discriminate. }
+    pose proof (update_unlink_comm s' k d req tag size now2 FQ NkP) as CM. fold u in CM. fold s2 in CM.
+    assert (AP : answers_as (run_sprim s2 (SUnlink k)) (sp_apply (sp_apply H (OClose now)) u)).
+    { rewrite <- CM, <- PS. apply related_answers; auto. apply related_update; auto. }
+    (* the updated store: the compacted copy still shadows the original *)
+    assert (KS : NoDup (keys s')).
+    { subst s'. unfold keys. cbn [sfiles]. rewrite map_app. simpl. apply (Permutation_NoDup (l := kc :: map fst (sfiles (sst h)))).
+      { apply Permutation_cons_append. } constructor; auto. apply (r_keys _ _ _ _ R). }
+    assert (S2 : s2 = s' \/ exists kf g, kf <> k /\ s2 = {| sdirs := sdirs s'; sfiles := upd_key kf g (sfiles s') |}
+                                    /\ (kf = kc -> exists its p', g fc = {| items := its ++ [Rec p']; ftail := TNone; mtime := now2 |} /\ p_req p' = p_req pl)).
+    { unfold s2, u, sapply. cbn [sprims sst dead]. destruct (sq_find kname kpath s' d req) as [|kf p] eqn:Q; [left; reflexivity|]. right. cbn [sst].
+      assert (Nkf : kf <> k).
+      { intro X. subst kf. rewrite (FQ d req) in Q. unfold sq_find in Q. apply sfind_key in Q. apply in_map_iff in Q. destruct Q as [e [Ee Ie]].
+        apply sglob_iff in Ie. destruct Ie as [_ [Ie _]]. apply NkP. unfold keys. apply in_map_iff. exists e. auto. }
+      unfold sq_find in Q. apply sfind_in_found in Q. destruct Q as [e [Ie [Ee [Re Pe]]]]. apply sglob_iff in Ie. destruct Ie as [Dd [Ie [De _]]].
+      assert (G : sget s' kf = Some (snd e)). { apply in_sget; auto. rewrite <- Ee. destruct e; auto. }
+      assert (Dk : shas_dir s' (k_dag kf) = true) by (rewrite <- Ee, De; auto).
+      destruct (sopen_appends s' kf (snd e) {| p_req := req; p_tag := tag; p_size := size |} now2 G Dk) as [g [RUN [[its GF] _]]].
+      exists kf, g. split; auto. split; [exact RUN|]. intros Ekf. exists its, {| p_req := req; p_tag := tag; p_size := size |}.
+      assert (e = (kc, fc)).
+      { apply (NoDup_map_inj fst (sfiles s')); auto. { subst s'. cbn [sfiles]. apply in_or_app. right. simpl. auto. } simpl. congruence. }
+      subst e. simpl in GF. split; auto. simpl. unfold reqP in Re. simpl in Re. rewrite Pf in Re. apply String.eqb_eq in Re. auto. }
+    apply (published_answers s2 k); auto.
+    + destruct S2 as [S2|[kf [g [Nkf [S2 _]]]]]; rewrite S2.
+      * subst s'. unfold keys. cbn [sfiles]. rewrite map_app. apply in_or_app. right. simpl. auto.
+      * unfold keys. cbn [sfiles]. rewrite upd_key_keys. subst s'. cbn [sfiles]. rewrite map_app. apply in_or_app. right. simpl. auto.
+    + destruct S2 as [S2|[kf [g [Nkf [S2 GC]]]]]; rewrite S2; auto.
+      exists (if skey_eqb kf kc then (kc, g fc) else (kc, fc)). cbn [sfiles].
+      assert (IY : In (kc, fc) (sfiles s')). { subst s'. cbn [sfiles]. apply in_or_app. right. simpl. auto. }
+      split.
+      { unfold upd_key. apply in_map_iff. exists (kc, fc). split; auto. simpl. destruct (skey_eqb kf kc) eqn:Q; auto.
+        apply skey_eqb_eq in Q. subst kf. reflexivity. }
+      split. { destruct (skey_eqb kf kc); reflexivity. } split. { destruct (skey_eqb kf kc); reflexivity. }
+      split. { destruct (skey_eqb kf kc); apply (LT w EW). }
+      intros ex Ix Ex rq Rq. apply (upd_key_in_other kf g (sfiles s') ex k) in Ix; auto. rewrite (INK ex Ix Ex) in Rq.
+      destruct (skey_eqb kf kc) eqn:Q; [|apply RQ0; auto].
+      apply skey_eqb_eq in Q. destruct (GC Q) as [its [p' [GF Rp]]]. unfold reqP in *. simpl. rewrite GF, parse_rec_snoc. rewrite Pp in Rq. congruence.
+  - right. subst s'. apply related_answers; auto. apply related_update; auto.
+Qed.
 
 (* ---- retention and rename: every prefix is related to a run map between BEFORE and AFTER --------------------------------------- *)
 Definition hist_ok (H : hist) : Prop := forall a b, In a (h_runs H) -> In b (h_runs H) -> clash a b = true -> a_id a = a_id b.
